@@ -589,9 +589,15 @@ func (s *zzvFSSess) step(a map[string]any, expect int) zzvFSObs {
 	// asynchronous completions (the upload is finished / the download is served by a goroutine): wait for the predicted
 	// number of frames or a terminal frame, then let the mesh settle
 	if expect > 0 {
+		lastN, lastChange := 0, time.Now()
 		zzvWaitFor(10*time.Second, func() bool {
 			n, term := s.countMine()
-			return n >= expect || (term && n > 0)
+			if n != lastN {
+				lastN, lastChange = n, time.Now()
+			}
+			// all predicted frames, or a frame that ends the exchange, or the reaction has started and then stayed silent
+			// (fewer frames than predicted: a difference that is re-checked by a second run before it is reported)
+			return n >= expect || (term && n > 0) || (n > 0 && time.Since(lastChange) > 400*time.Millisecond)
 		})
 	}
 	settle := 25 * time.Millisecond
@@ -643,8 +649,8 @@ func TestZZVFileStreamReplay(t *testing.T) {
 			steps++
 			acts[zzvFSStr(st.A, "act")]++
 			hist = append(hist, st.A)
-			if corrupt == "table" && i == 1 && k == 1 {
-				obs.Table++
+			if corrupt == "table" && zzvFSStr(st.A, "act") == "Reset" {
+				obs.Table++ // self-test of the binding: one corrupted observed field must make the check fail
 			}
 			if verbose {
 				trace = append(trace, map[string]any{"a": st.A, "obs": obs})
